@@ -850,6 +850,57 @@ def wl_rank5(run, rng, idx):
                  else ("matrix",))
 
 
+PAIRS4 = [(0, 1), (0, 2), (0, 3), (1, 2), (1, 3), (2, 3)]
+PERMS4 = list(itertools.permutations(range(4)))
+BLOCK4 = 512
+
+
+def _canonical4(labels):
+    """is this assignment of labels to the 6 pairs the least in its S4 orbit?"""
+    lab = {}
+    for (i, j), m in zip(PAIRS4, labels):
+        lab[(i, j)] = lab[(j, i)] = m
+    for perm in PERMS4[1:]:
+        img = tuple(lab[(perm[i], perm[j])] for (i, j) in PAIRS4)
+        if img < labels:
+            return False
+    return True
+
+
+def wl_rank4_orbits(run, rng, idx):
+    """thorough: every rank-4 Coxeter matrix over {2..7, inf} up to relabelling
+    (5831 orbits), one block of 512 label codes per case; geodesic and shortlex
+    automata judged by the attached postconditions up to length 6."""
+    from geometry_tools import coxeter
+    done = 0
+    for code in range(idx * BLOCK4, min((idx + 1) * BLOCK4, 7 ** 6)):
+        c = code
+        labels = []
+        for _ in range(6):
+            labels.append(LAB7[c % 7])
+            c //= 7
+        labels = tuple(labels)
+        if not _canonical4(labels):
+            continue
+        M = from_pairs(4, dict(zip(PAIRS4, labels)))
+        run.current_case = {"coxeter_matrix": M, "workload": "rank4-all-orbits"}
+        G = coxeter.CoxeterGroup(matrix=np.array(raw_matrix(M, [0, -1][code % 2])))
+        ok = True
+        for sl in (True, False):
+            try:
+                with time_budget(30.0):
+                    G.automaton(shortlex=sl)
+            except _Budget:
+                run.monitor("public-api").diag("rank4-all-orbits: construction exceeded 30 s")
+                ok = False
+                break
+        done += ok
+        run.note_class("rank4-orbit", ct.coxeter_type(M), input_class(M),
+                       "reducible" if len(ct.components(M)) > 1 else "irreducible")
+    run.extra["rank4_orbits_judged"] = run.extra.get("rank4_orbits_judged", 0) + done
+    run.note_class("rank4-all-orbits-block", idx % 8)
+
+
 def random_walk_word(rng, M, gens, length, corrupt):
     """a reduced word grown letter by letter with the root oracle, optionally
     corrupted (one extra letter inserted) so that both outcomes occur."""
@@ -969,10 +1020,16 @@ def wl_matrix_fn(run, rng, idx):
     for lex in (False, True):
         run.current_case = {"function": "generate_automaton_coxeter_matrix",
                             "matrix": raw_matrix(M, inf), "packaging": how, "lex_reduced": lex}
-        if idx % 2:
-            coxeter_automaton.generate_automaton_coxeter_matrix(raw, lex_reduced=lex)
-        else:
-            coxeter_automaton.generate_automaton_coxeter_matrix(raw, lex)
+        try:
+            with time_budget(150.0 if run.tier == "thorough" else 4.0):
+                if idx % 2:
+                    coxeter_automaton.generate_automaton_coxeter_matrix(raw, lex_reduced=lex)
+                else:
+                    coxeter_automaton.generate_automaton_coxeter_matrix(raw, lex)
+        except _Budget:
+            run.monitor("public-api").diag("library automaton construction exceeded the "
+                                           "wall-clock guard; case dropped")
+            return
         run.note_class("matrix-fn", n, ct.coxeter_type(M), input_class(M), how, inf, lex)
 
 
@@ -1081,6 +1138,7 @@ WORKLOADS = [
     Workload("rank2", wl_rank2, quick=7, thorough=28),
     Workload("rank3", wl_rank3, quick=84, thorough=343),
     Workload("rank4", wl_rank4, quick=36, thorough=400),
+    Workload("rank4-all-orbits", wl_rank4_orbits, quick=0, thorough=(7 ** 6 + BLOCK4 - 1) // BLOCK4),
     Workload("rank5", wl_rank5, quick=16, thorough=160),
     Workload("long-words", wl_long_words, quick=24, thorough=640),
     Workload("matrix-fn", wl_matrix_fn, quick=30, thorough=320),
